@@ -614,6 +614,9 @@ class Check:
             if fd:
                 self.known.append(fd)
             else:
+                if r.replay:
+                    with open(r.replay + ".meta.json", "w") as f:
+                        json.dump({"spec_dir": os.path.relpath(spec_dir, ROOT), "module": module, "cfg": cfg, "env": env or {}}, f)
                 self.violations.append(("%s: %s at event #%d of an execution: %s" % (tag, r.reason, r.index, r.event[:400]),
                                         r.replay))
         log("[%s] %s: %d executions, %d events validated, %d rejected, %.1fs" % (tag, module, n_exec, n_ev, len(rej),
@@ -659,6 +662,8 @@ class Check:
             dst = os.path.join(rdir, "%s_%d_%s" % (self.tier, i, os.path.basename(rp or "none")))
             if rp and os.path.exists(rp):
                 shutil.copy(rp, dst)
+                if os.path.exists(rp + ".meta.json"):
+                    shutil.copy(rp + ".meta.json", dst + ".meta.json")
             else:
                 with open(dst, "w") as f:
                     f.write(desc + "\n")
@@ -708,3 +713,29 @@ def main_wrapper(fn):
     except MachineryError as e:
         log("MACHINERY-ERROR: %s" % e)
         sys.exit(2)
+
+
+def replay(path):
+    """bin/check <id> --replay <path>: re-validates a stored rejected trace prefix (the last event is the one the
+    specification could not explain) or shows a stored crash report."""
+    if not os.path.exists(path):
+        print("no such replay file: " + path)
+        return 2
+    meta = path + ".meta.json"
+    if not os.path.exists(meta):
+        with open(path, "r", errors="replace") as f:
+            sys.stdout.write(f.read()[:20000])
+        return 1
+    m = json.load(open(meta))
+    r = run_tlc(os.path.join(ROOT, m["spec_dir"]), m["module"], m["cfg"], workers=1, env=dict(m.get("env") or {}, TRACE=path), timeout=900)
+    if r.error:
+        print("MACHINERY-ERROR: " + r.error)
+        return 2
+    with open(path) as f:
+        lines = f.read().splitlines()
+    if r.exit == 0:
+        print("ACCEPTED: the specification %s explains all %d events of %s" % (m["module"], len(lines), path))
+        return 0
+    print("REJECTED by %s after %d of %d events (%s); first unexplained event:" % (m["module"], max(0, r.generated - 1), len(lines), r.violation))
+    print(lines[min(len(lines) - 1, max(0, r.generated - 1))][:3000])
+    return 1
